@@ -151,6 +151,29 @@ class C07(ScanCheck):
         for n, k in big:
             for _ in range(k):
                 scen.append(self.scenario(rng, n, big=True, thorough=(n >= 20000)))
+        # view-tag coincidence: a tagged output owned through its ADDITIONAL key whose tag also equals the tag the MAIN key's
+        # derivation gives at that position (1/256 by chance; ground here).  The main key does not open the output, so the
+        # scanner must still fall back to the additional key.
+        for g in range(3 if q else 12):
+            v, s = sc.rscalar(rng), sc.rscalar(rng)
+            idx = rng.choice([(0, 1), (1, 0), (1, 2)])
+            pos = rng.choice([0, 1, 2])
+            outs = [sc.mk_out_raw(rng, sc.garbage_key(rng)) for _ in range(pos)]
+            own = sc.mk_out_wallet(rng, v, s, idx[0], idx[1], False, "y", clear=0)
+            outs.append(own)
+            probe = sc.mk_scenario(rng, v, s, outs, version=2, rct_type=5, in_kind="key", nadd=len(outs))
+            want = sc.send_output(probe, pos, own)["tag"]
+            r = None
+            for _ in range(5000):
+                cand = sc.rscalar(rng)
+                dmain = sc.cp(sc.gmul(8 * v * cand % L))                      # 8*v*(cand*G)
+                if sc.keccak(b"view_tag" + dmain + sc.vi(pos))[0] == want:
+                    r = cand
+                    break
+            if r is None:
+                continue
+            s_ = sc.mk_scenario(rng, v, s, outs, version=2, rct_type=rng.choice([4, 5, 6]), in_kind="key", nadd=len(outs), r=r)
+            scen.append((s_, [((0, 2, 0, 3), None)], {"tag-coincidence", "own-add", "tag-y"}))
         real = self.realise(rng, [(s, rk) for s, rk, _ in scen])
         self.expected, self.truth, self.stats = {}, {}, {"outputs": 0, "owned_reported": 0, "features": {}}
         cases = []
